@@ -509,6 +509,36 @@ def run(ctx):
         for (ec, ids), mv in zip(impls, ctx.coq_eval("mac", HDR, exprs, per_file=50)):
             if [tuple(x) for x in mv] != ec:
                 ctx.broken.append("correspondence MAC encoder ids %s: impl %s model %s" % (ids, ec, mv))
+    # encoders that hand back their input (uncoded transmission) or a view of it; the same tensor sent by several users; repeated calls
+    class Ident(nn.Module):
+        def forward(self, x, *a, **k):
+            return x
+
+    class View(nn.Module):
+        def forward(self, x, *a, **k):
+            return x.view(x.shape)
+
+    class Twice(nn.Module):
+        def forward(self, x, *a, **k):
+            return x * 2.0
+    for users, mkenc in ((2, Ident), (3, Ident), (4, Ident), (3, View), (3, Twice)):
+        for reuse in (False, True):
+            m = MultipleAccessChannelModel(encoders=[mkenc() for _ in range(users)], decoders=Dec(), channel=RecChannel(3), power_constraint=RecConstraint(2), num_devices=users)
+            t0 = torch.tensor([[1.0, 2.0]])
+            xs = [t0 if (reuse and i % 2 == 0) else torch.tensor([[10.0 * (i + 1), 20.0 * (i + 1)]]) for i in range(users)]
+            keep = [x.clone() for x in xs]
+            gain = 2.0 if mkenc is Twice else 1.0
+            exp = sum(k_ * gain for k_ in keep)
+            for call in (1, 2):
+                LOG.clear()
+                out = m(xs)
+                ctx.count("mac-runs")
+                ctx.nontriv(("mac-alias", users, mkenc.__name__, reuse, call))
+                if not torch.equal(out, exp) or any(not torch.equal(a, b_) for a, b_ in zip(xs, keep)):
+                    ctx.violation("C17/MultipleAccessChannelModel/superposition-aliasing", "%d users with %s encoders%s, call %d on the same inputs: superposed signal %s, the sum of the users' signals is %s; inputs %s" % (
+                        users, mkenc.__name__, ", users 0 and 2 sending the same tensor" if reuse else "", call, out.tolist(), exp.tolist(),
+                        "modified" if any(not torch.equal(a, b_) for a, b_ in zip(xs, keep)) else "unchanged"), {"users": users, "encoder": mkenc.__name__, "reuse": reuse, "call": call})
+                    break
     # a single shared encoder instance
     LOG.clear()
     m = MultipleAccessChannelModel(encoders=Enc(0), decoders=Dec(), channel=RecChannel(3), power_constraint=RecConstraint(2), num_devices=3)
